@@ -3,6 +3,8 @@
 package hsms
 
 import (
+	"math"
+
 	"github.com/wolimst/lib-secs2-hsms-go/pkg/ast"
 	rt "github.com/wolimst/lib-secs2-hsms-go/pkg/zzverifrt"
 )
@@ -181,5 +183,67 @@ func ZZ_C01_boundary() {
 	}
 	st, fn, wb, sid, sys := zzHeaderFields()
 	zzCheckRoundTrip(item, st, fn, wb, sid, sys, "")
+	rt.Reach("end")
+}
+
+// ZZ_C02_boundary: leaf items whose payload straddles the 1/2/3 length-byte boundaries
+// (n elements, every element symbolic), compared with the E5 encoding.
+func ZZ_C02_boundary() {
+	kind, n := rt.Param("kind"), rt.Param("n")
+	if kind == zzF4 || kind == zzF8 {
+		// floats: concrete filler, three symbolic positions (FP constraints on every element of a
+		// 256-byte item are beyond the solver's reach in the time budget)
+		w := zzWidth[kind]
+		vals := make([]interface{}, n)
+		want := zzHeader(zzCodes[kind], n*w)
+		sym := map[int]float64{}
+		for j, p := range []int{0, n / 2, n - 1} {
+			v := rt.Float64(rt.N("f", j))
+			if kind == zzF4 {
+				rt.Assume(rt.And(v >= -math.MaxFloat32, v <= math.MaxFloat32))
+			} else {
+				rt.Assume(rt.And(v >= -math.MaxFloat64, v <= math.MaxFloat64))
+			}
+			sym[p] = v
+		}
+		for i := range vals {
+			v, ok := sym[i]
+			if !ok {
+				v = float64(i) * 0.5
+			}
+			vals[i] = v
+			var bits uint64
+			if kind == zzF4 {
+				bits = uint64(math.Float32bits(float32(v)))
+			} else {
+				bits = math.Float64bits(v)
+			}
+			for j := w - 1; j >= 0; j-- {
+				want = append(want, byte(bits>>(8*uint(j))))
+			}
+		}
+		rt.Assert(rt.BytesEq(ast.NewFloatNode(w, vals...).ToBytes(), want), "boundary-item-bytes")
+		rt.Reach("end")
+		return
+	}
+	if kind == zzBoolean {
+		// the encoder branches on every boolean: three symbolic positions, filler elsewhere
+		vals := make([]interface{}, n)
+		want := zzHeader(zzCodes[kind], n)
+		sym := map[int]bool{0: rt.Bool("b_0"), n / 2: rt.Bool("b_1"), n - 1: rt.Bool("b_2")}
+		for i := range vals {
+			v, ok := sym[i]
+			if !ok {
+				v = i%3 == 0
+			}
+			vals[i] = v
+			want = append(want, byte(rt.Ite(v, 1, 0)))
+		}
+		rt.Assert(rt.BytesEq(ast.NewBooleanNode(vals...).ToBytes(), want), "boundary-item-bytes")
+		rt.Reach("end")
+		return
+	}
+	item, payload := zzLeaf(kind, n, "v")
+	rt.Assert(rt.BytesEq(item.ToBytes(), zzLeafEnc(kind, n, payload)), "boundary-item-bytes")
 	rt.Reach("end")
 }
